@@ -542,7 +542,19 @@ pub fn generate(seed: u64, limits: &GenLimits, allowed: &Features) -> GenProblem
                 } else {
                     json!({ "earliest": fmt_time(T0 + a), "latest": fmt_time(T0 + b) })
                 };
-                breaks.push(json!({ "time": time, "duration": cx.p.range(60, 1200) }));
+                let duration = cx.p.range(60, 1200);
+                breaks.push(json!({ "time": time, "duration": duration }));
+                // a second reserved time later in the shift (chronological order, no overlap), one in three
+                if cx.p.chance(0.33) {
+                    let a2 = b + duration + cx.p.range(600, (len / 3).max(601));
+                    let b2 = a2 + cx.p.range(0, 1800);
+                    let time2 = if time.get("earliest").is_some_and(|e| e.is_number()) {
+                        json!({ "earliest": (a2 - t_start) as f64, "latest": (b2 - t_start) as f64 })
+                    } else {
+                        json!({ "earliest": fmt_time(T0 + a2), "latest": fmt_time(T0 + b2) })
+                    };
+                    breaks.push(json!({ "time": time2, "duration": cx.p.range(60, 900) }));
+                }
             }
             if !breaks.is_empty() {
                 shift.insert("breaks".into(), Value::Array(breaks));
